@@ -19,3 +19,13 @@ package utils
 //@   loop 1 invariant ok ==> forall k v1beta1.CNIStatus :: seen(k) && status[k] != nil ==> instant(status[k].LastUpdateTime) <= instant(cniStatusInfo.LastUpdateTime)
 //@   loop 1 invariant !ok ==> forall k v1beta1.CNIStatus :: seen(k) ==> status[k] == nil
 //@   loop 1 invariant forall k v1beta1.CNIStatus :: seen(k) ==> k in status
+
+//@ for C18 C11
+//@ # a pod has a stable name only if it has no owner at all (a bare pod) or SOME owner reference — controller or not — is
+//@ # of a stateful kind; fixed-IP allocations and zone inheritance rest on this answer
+//@ pure func stsKind(k string) bool = exists j int :: 0 <= j && j < len(stsKinds) && stsKinds[j] == k
+//@ func IsFixedNamePod
+//@   requires pod != nil
+//@   modifies nothing
+//@   expat
+//@   ensures result ==> len(ownerRefsOf(pod)) == 0 || (exists i int :: 0 <= i && i < len(ownerRefsOf(pod)) && stsKind(ownerRefsOf(pod)[i].Kind))
